@@ -26,6 +26,7 @@ func init() {
 			{ID: "C18.R6", Doc: "the folds the aggregates are built on (Reduce, ReduceInts) visit every element in order without early exit (= C14 on those methods)", Run: func(c *Ctx) {
 				c.R.Floor("C18.R6", runAs(c, "C18.R6", c14Run, func(o *Obligation) bool { return strings.Contains(o.Construct, "(*list).Reduce") }), 2)
 			}},
+			{ID: "C18.R7", Doc: "the numbers folded are the numbers given: parseVal and the wrapper constructors store ints and floats unchanged (= C12.R1)", Run: func(c *Ctx) { c.R.Floor("C18.R7", runAs(c, "C18.R7", c12R1, nil), 10) }},
 			{ID: "C18.R5", Doc: "PURE: no aggregate writes the list", Run: func(c *Ctx) {
 				n := pureRule(c, "C18.R5", []string{"(*list).Sum", "(*list).Prod", "(*list).Min", "(*list).Max", "(*list).Avg", "(*list).IntSum", "(*list).IntProd", "(*list).IntMin", "(*list).IntMax"})
 				c.R.Floor("C18.R5", n, 9)
